@@ -195,6 +195,16 @@ def run(ctx):
             res.failures.append({"what": f["what"], "kf": None, "input": f["input"]})
     except Exception as e:  # noqa
         res.failures.append({"what": "broadcast matrix crashed: %r" % (e,), "kf": None, "input": "broadcast_matrix"})
+    # ---- every parameter of the public receive API (block, timeout, maxsize, … enumerated from the signatures)
+    try:
+        n_a, a_fails = H.api_parameter_histories(rng, 6 if ctx.thorough else 1)
+        res.evaluations += n_a
+        res.count("api-parameter-histories", n_a)
+        for f in a_fails[:8]:
+            res.failures.append({"what": f["what"], "kf": None, "input": f["input"]})
+    except Exception as e:  # noqa
+        res.failures.append({"what": "API-parameter history crashed: %r" % (e,), "kf": None,
+                             "input": "api_parameter_histories"})
     # ---- value-snapshot semantics: one StructuredMessage object reused / mutated by the sender, scribbling receiver
     try:
         n_hist, snap_fails = H.value_snapshot_histories(rng, 40 if ctx.thorough else 8)
